@@ -252,7 +252,7 @@ def classify_failure(chk):
 def main(a):
     t_start = time.time()
     pid = a.prop
-    meta = prop_meta(pid)
+    meta = prop_meta(pid) if pid != "ALL" else {"level": "proof"}
     seed = int(os.environ.get("VERIF_SEED", "0"))
     global KANI_DIR
     scratch_root = os.environ.get("VERIF_SCRATCH", "/var/tmp")
@@ -261,7 +261,7 @@ def main(a):
         atexit.register(lambda: shutil.rmtree(scratch, ignore_errors=True))
     _, KANI_DIR = kanirun.snapshot(scratch, KANI_SRC)
     hs_all = discover()
-    hs = [h for h in hs_all if pid in h.props or h.role == "canary"]
+    hs = [h for h in hs_all if pid in h.props or h.role == "canary" or pid == "ALL"]
     if a.tier == "quick":
         hs = [h for h in hs if h.tier == "quick"]
     if a.only:
